@@ -133,6 +133,12 @@ func readCSVToUDLChan(in io.Reader, cudL chan updownLine, cErr chan error, cRead
 		cudL <- udL
 	}
 
+	// if we never saw the header line, then the file was empty
+	if header {
+		cErr <- errors.New("empty --target csv: is this file the output of gofasta updown list?")
+		return
+	}
+
 	cReadDone <- true
 }
 
@@ -198,6 +204,11 @@ func readCSVToUDLList(in io.Reader) ([]updownLine, error) {
 
 		LudL = append(LudL, udL)
 		counter++
+	}
+
+	// if we never saw the header line, then the file was empty
+	if header {
+		return make([]updownLine, 0), errors.New("empty --query csv: is this file the output of gofasta updown list?")
 	}
 
 	return LudL, nil
